@@ -371,7 +371,10 @@ func (th IntTheory) andMask(x side, a T, mask *big.Int, m MT) T {
 	}
 	// (sum first: a line of the form (= |sym| ...) would be taken for the definition of |sym| by the slicer)
 	vc.assume(mkEq(sum, a))
-	return vc.define("masked", res)
+	r := vc.define("masked", res)
+	// the masked value has no bits outside the mask
+	th.note(r, bitsInfo{tz: int(mask.TrailingZeroBits()), width: mask.BitLen()})
+	return r
 }
 
 func (th IntTheory) Shift(x side, op token.Token, a T, m MT, cnt T, cm MT) T {
